@@ -685,6 +685,16 @@ class Interp:
             syms_ = [i for i in inners if i[0] is not None]
             if len(syms_) != len(inners):
                 return rng(sym.Opq("len", ())), fresh(), lambda: self.unknown("zip-mixed", node)
+            # sequences over a row space and over a mask-selected part of it are not aligned row by row: position k of
+            # the selected rows is not row k
+            def _masked(sp_):
+                k_ = sp_.key
+                return isinstance(k_, tuple) and len(k_) == 3 and k_[0] == "sub"
+            if any(_masked(x[0]) for x in syms_) and not all(x[0].key == syms_[0][0].key for x in syms_):
+                self.event("zip-misaligned", node, spaces=[x[0].key for x in syms_])
+                self.lose("zip of a sequence with a row selection of another: paired by position, not by row", node)
+                u = self.unknown("zip-misaligned", node)
+                return rng(sym.Opq("len", ())), fresh("b"), lambda: u
             # common length = the smallest size (sizes differ by constants in the repo: zip(l, l[1:]))
             best = syms_[0]
             for s in syms_[1:]:
